@@ -56,6 +56,12 @@ prop("C12", claimed=True, level="model_checking", engine="E-SEQ",
      note="The formula is evaluated in f32 in the documented operation order and compared with relative tolerance 6e-6; phrase-prefix and sloppy phrases have no closed-form model and are only checked for explain / collector / segmentation consistency.",
      design_ref="3/C12")
 
+prop("C07", claimed=True, level="model_checking", engine="E-SEQ",
+     technique="bounded-exhaustive enumeration of document collections x schema options, canonical dump of every segment (term dictionary, postings, frequencies, positions, norms) compared with a model computed with the index's own analyzer; every posting list re-read block-wise and by seeks",
+     text="Family A: every multiset of <= 2 (thorough 3) documents over token sequences of <= 3 over {a,b,c} and every two-valued document x {basic, freqs, positions} x fieldnorms on/off x {default, raw, whitespace, ngram(1,2)}, single segment and merged; family B: posting-list lengths {1,127,128,129,255,256,257,384,5000,40000} x doc-id gaps {1,2,255,256,65535} x term-frequency patterns {1,2,127,128,129,300}, terms of length 0 / 1 / 255 / 256 / 65530 / 65531 and a 300-byte shared-prefix family; family C: u64 / i64 / f64 / date / bool / bytes / ip / facet / two JSON fields sharing paths (nested objects, arrays, mixed types) in 1-3 segments and merged.",
+     note="Bounded families; tokenizers are black boxes (C19 checks them); typed and JSON term bytes are built with the public Term constructors; segment order after a merge is not demanded here (C04).",
+     design_ref="3/C07")
+
 ALL = ["C%02d" % i for i in range(1, 21)]
 REASON_TODO = "check not built yet in this revision of /verif (design in DESIGN.md section 3); will be claimed when its engine lands"
 
